@@ -161,6 +161,19 @@ CLAIMED["C15"] = (
 PENDING_REASON = "check not built yet in this session; see DESIGN.md section 3 for the planned oracle"
 
 
+# additions of seeding round 7 (appended to the technique strings)
+EXTRA = {
+    "C01": "; reported velocity profile ends in the wall frame at -v-, -v+ of the matching (LTE and off-equilibrium solves)",
+    "C04": "; at grid points without a root the returned temperature is the residual's minimiser (documented fallback)",
+    "C06": "; call-history variant: findvwLTE / maxAl asked of the solver object before vJ, matchings and windows are",
+    "C09": "; EOM objects first used at another temperature of the coexistence range; profile end points and shapes on a shared EOM object",
+    "C10": "; integer-typed temperatures (int, np.int64, 0-d) inside and outside the tables agree with the float evaluation; every function evaluated outside the first tables before a re-trace",
+    "C13": "; tachyonic mass profiles with E^2 > 0 on every node; solver objects that computed moments for another particle list before",
+    "C17": "; metamorphic input-type relation: integer / 0-d / int32 / list coordinates give the same maps and Jacobians as floats",
+    "C20": "; first derivative inside a user-widened table after earlier value/derivative queries; T = 0 exactly (float, int, 0-d, array entry) with massless species",
+}
+
+
 def main():
     checks = []
     for pid in ALL:
@@ -169,6 +182,7 @@ def main():
         if not glob.glob(os.path.join(HERE, "checks", f"{pid.lower()}_*.py")):
             continue
         tech, text, note, ref = CLAIMED[pid]
+        tech = tech + EXTRA.get(pid, "")
         checks.append(
             {
                 "property_id": pid,
